@@ -126,7 +126,8 @@ def r3(tree, prog, rep):
     chain = g.call_nodes(is_chain)
     direct = [n for n in g.call_nodes(lambda c: dotted(c.func) == "self._T.stoppedD") if n not in chain]
     te, fe = g.cond_edges(has_manager, True), g.cond_edges(has_manager, False)
-    ok = len(ms) == 1 and len(chain) == 1 and len(direct) == 1 and bool(te) and bool(fe)
+    # (a `finally:` body appears once per way of reaching it, so there may be several chain nodes)
+    ok = len(ms) == 1 and len(chain) >= 1 and len(direct) == 1 and bool(te) and bool(fe)
     if ok:
         ok = all(g.exit not in g.reach([y], avoid_nodes=set(ms), explicit_only=True) for (x, y, l) in te) \
             and all(g.exit not in g.reach([y], avoid_nodes=set(chain), explicit_only=True) for (x, y, l) in te) \
@@ -134,6 +135,17 @@ def r3(tree, prog, rep):
             and not g.only_when(ms + chain, has_manager, True)
     rep.check("C17.R3", "Dilator.stop: with a manager, stop it and chain T.stoppedD on when_stopped(); without one, call T.stoppedD directly", ok,
               site(fn, MGR), key="C17.R3:Dilator.stop", what="the Terminator can wait forever for stoppedD (close() never completes)")
+    # Manager.stop() runs the application's status callback (StoppedPeer) as the last output of its row: the Manager has stopped when
+    # that raises, so the stoppedD chain must be attached whichever way Manager.stop() returns - before the call, or on its exception
+    # path as well (finally)
+    if ok:
+        before = not g.precedes(chain, ms)
+        after = g.reach([y for n in ms for (y, lab) in g.succ[n]], avoid_nodes=set(chain))
+        ok2 = before or (g.exit not in after and g.raise_exit not in after)
+        rep.check("C17.R3", "Dilator.stop attaches the stoppedD chain whichever way Manager.stop() returns (normally or raising from the "
+                  "application's status callback)", ok2, site(fn, MGR), key="C17.R3:Dilator.stop:chain-on-every-exit",
+                  what="when the application's status callback raises inside Manager.stop() (the Manager has already stopped), Dilator.stop "
+                       "is left before T.stoppedD is chained on when_stopped(): the Terminator waits for ever and closed never fires")
     ws = tree.func(MGR, "Manager", "when_stopped")
     rep.check("C17.R3", "Manager.when_stopped hands out the stopped observer", bool(calls_named(ws, "self._stopped.when_fired")), site(ws, MGR), key="C17.R3:when_stopped")
     T = prog.machine("Terminator")
@@ -530,3 +542,7 @@ MUTANTS.append(Mutant("status-before-versions", "src/wormhole/_boss.py", "    S2
                       "    S2_happy.upon(_got_version, enter=S2_happy, outputs=[send_status_confirmed_key, process_version])", "C17.R12",
                       "a raising status callback keeps the peer's versions from the Dilator: an incapable peer is never reported (seed C17-11)"))
 MUTANTS.append(Mutant("status-before-notify-stopped", MGR, "    LONELY.upon(stop, enter=STOPPED, outputs=[notify_stopped, send_status_stopped])", "    LONELY.upon(stop, enter=STOPPED, outputs=[send_status_stopped, notify_stopped])", "C17.R12"))
+MUTANTS.append(Mutant("dilator-stop-chain-after-stop", MGR, "            try:\n                self._manager.stop()\n            finally:\n", "            self._manager.stop()\n            if True:\n", "C17.R3",
+                      "finding F17 put back: a raising status callback leaves Dilator.stop before stoppedD is chained"))
+REWRITES.append(Rewrite("dilator-stop-chain-first", MGR, "            try:\n                self._manager.stop()\n            finally:\n                # (also when the application's status callback, which stop()\n                # runs, raises: the Manager has stopped by then)\n                # TODO: avoid Deferreds for control flow, hard to serialize\n                self._manager.when_stopped().addCallback(lambda _: self._T.stoppedD())\n",
+                        "            self._manager.when_stopped().addCallback(lambda _: self._T.stoppedD())\n            self._manager.stop()\n", desc="subscribe before stopping instead of try/finally"))
